@@ -375,7 +375,9 @@ def runH (c : CaseSt) (t : List String) : Option (String × CaseSt) :=
       | _ => .absent
     let cfg := Config.load (fun _ => true) loaded
     let (alts, st) := st.cyclesAlternatives
-    let outs := (alts.map (fun cy => sorted ((st.publish cfg (pathOf p) cy).map diagStr))).eraseDups
+    -- the scope check runs (and touches the import memo) only when its code is enabled
+    let (tbl, st) := if cfg.isDisabled "scope-mismatch" then ([], st) else st.scopeTableSt (pathOf p)
+    let outs := (alts.map (fun cy => sorted ((st.publish cfg (pathOf p) cy (Index.tableRes tbl)).map diagStr))).eraseDups
     upd (if outs.length == 1 then outs.head! else "ANYOF " ++ " || ".intercalate outs, st)
   | _ => none
 
@@ -599,8 +601,9 @@ def runQ (c : CaseSt) (t : List String) : String × CaseSt :=
     upd (if b then "1" else "0", st)
   | ["mismatch", p] =>
     let f := pathOf p
-    let ms := mismatchesIn st.defs ((alookup st.fileDefs f).getD []) f
-    (sorted (ms.map (fun m => s!"{defShort m.1}=>{defShort m.2}")), c)
+    let (tbl, st) := st.scopeTableSt f
+    let ms := mismatchesIn st.defs (Index.tableRes tbl) ((alookup st.fileDefs f).getD []) f
+    upd (sorted (ms.map (fun m => s!"{defShort m.1}=>{defShort m.2}")), st)
   | ["undeclared", p] =>
     let us := (alookup st.undeclared (pathOf p)).getD []
     (listed (us.map (fun u => s!"{u.line}:{u.startChar}-{u.endChar}:{u.name}@{u.functionName}:{u.functionLine}")), c)
@@ -704,18 +707,13 @@ def runSpec (c : CaseSt) (t : List String) : Option String :=
   | ["cycles"] => some ("-" ++ flagStr (cycleFlags st) ++ " GRAPH=" ++ specDepGraph st)
   | ["cyclesin", _] => some ("-" ++ flagStr (cycleFlags st))
   | ["mismatch", p] =>
+    -- since the E14 repair the scope check resolves every dependency from the fixture's file: the
+    -- verdict deviates from the property exactly where that resolution does (E1, E1b, E8 …)
     let f := pathOf p
-    let deps := (st.defs.filter (·.file == f)).flatMap (·.deps)
-    let multi := deps.any (fun n => (defsOf st.defs n).length ≥ 2)
-    -- the definition the scope check looks at (first registered under the name) is not the one
-    -- the shadowing order selects from this file
-    let headOff := (st.defs.filter (·.file == f)).any (fun d => d.deps.any (fun n =>
-      match (defsOf st.defs n).head? with
-      | some hd =>
-        let ix := if n == d.name then st.defs.filter (· != d) else st.defs
-        !(specAcceptable st ix f n).contains hd
-      | none => false))
-    some ("-" ++ flagStr ((if multi then ["dep-multi-def"] else []) ++ (if headOff then ["dep-head-not-resolved"] else [])))
+    let es := specEdges st
+    some ("-" ++ flagStr (((st.defs.filter (·.file == f)).flatMap (fun d => d.deps.flatMap (fun n =>
+      let ix := if n == d.name then st.defs.filter (· != d) else st.defs
+      specFlagsE es st ix f n))).eraseDups))
   | _ => none
 
 def runOp (c : CaseSt) (t : List String) : String × CaseSt :=
